@@ -176,7 +176,8 @@ overflow:
 FastRational divexact(FastRational const & n, FastRational const & d) {
     assert(d != 0);
     assert(n.isInteger() && d.isInteger());
-    if (n.wordPartValid() && d.wordPartValid()) {
+    // WORD_MIN / -1 does not fit a word: leave that case to the arbitrary-precision path
+    if (n.wordPartValid() && d.wordPartValid() && not (n.num == WORD_MIN && d.num == -1)) {
         word num = n.num;
         word den = d.num;
         word quo;
